@@ -203,23 +203,32 @@ class InRamPolicySupporter(policy_supporter.PolicySupporter):
         dtype=np.float32,
     )
 
+    all_labels = converter.to_labels(warped_trials)
+    # Only feasible completed trials reporting every objective can be best.
+    eligible = np.asarray(
+        [
+            t.status == vz.TrialStatus.COMPLETED and not t.infeasible
+            for t in self.trials
+        ],
+        dtype=bool,
+    ) & ~np.isnan(all_labels).any(axis=1)
+    trials = np.asarray(self.trials)[eligible]
+    if not trials.size:
+      return []
+
     if self.study_config.is_single_objective:
-      labels = converter.to_labels(warped_trials).reshape(-1)
+      labels = all_labels[eligible].reshape(-1)
       if count is None:
         # All tied top trials.
-        if np.all(np.isnan(labels)):
-          return []
-        return list(np.asarray(self.trials)[labels == np.nanmax(labels)])
+        return list(trials[labels == np.max(labels)])
       # Single metric: Sort and take top N.
       count = count or 1  # Defaults to 1.
       sorted_idx = np.argsort(-labels)  # np.argsort sorts in ascending order.
-      return list(np.asarray(self.trials)[sorted_idx[:count]])
+      return list(trials[sorted_idx[:count]])
     else:
       algorithm = multimetric.FastParetoOptimalAlgorithm()
-      is_optimal = algorithm.is_pareto_optimal(
-          points=converter.to_labels(warped_trials)
-      )
-      return list(np.asarray(self.trials)[is_optimal][:count])
+      is_optimal = algorithm.is_pareto_optimal(points=all_labels[eligible])
+      return list(trials[is_optimal][:count])
 
   def SetPriorStudy(
       self, study: vz.ProblemAndTrials, study_guid: Optional[str] = None
